@@ -1,8 +1,8 @@
 """Which suites, theorems and extracted data decide which property."""
-from . import dhcpwire, pool, dhcp, acl
+from . import dhcpwire, pool, dhcp, acl, dnsrate, dnscache
 
 SUITES = {}
-for cls in [dhcpwire.DhcpRoundTrip, dhcpwire.DhcpParse, dhcpwire.Frame, dhcpwire.BroadcastFlag, pool.PoolHistory, dhcp.DhcpHistory, acl.AclSuite, acl.LeaseJson]:
+for cls in [dhcpwire.DhcpRoundTrip, dhcpwire.DhcpParse, dhcpwire.Frame, dhcpwire.BroadcastFlag, pool.PoolHistory, dhcp.DhcpHistory, acl.AclSuite, acl.LeaseJson, dnsrate.BucketSuite, dnsrate.RateLimitSuite, dnscache.CacheSuite]:
     SUITES[cls.name] = cls()
 
 TRUSTED_BASE = [
@@ -81,5 +81,29 @@ PROPS = {
              "(IPv4, IPv6, v4-mapped, unix) x 4 operations through acl::require_permission; non-trivial = at least one rule",
         assumptions=["the HTTP router and the DNS entry point are tied by extraction of their match arms / statement order (they need live sockets to execute)"],
         trusted=[],
+    ),
+    "C16": dict(
+        suites=[("bucket", 3000, 80000), ("ratelimit", 2500, 60000)],
+        extracted=["dns.MAX_TOKENS", "dns.TOKENS_PER_SECOND", "dns.costFloor", "dns.ratelimitOnlyRefused", "dns.goodCookieExempt"],
+        rule="token bucket: sequences of 1..30 check/deplete calls under a virtual Clock with costs and gaps around every boundary "
+             "(0, capacity, capacity+1, refill period +-1); rate limiter: sequences of 1..40 should_ratelimit calls from one source "
+             "(reply sizes 40..500, query sizes 17..512, REFUSED and other rcodes, idle gaps around the refill period) mixed with "
+             "cookie issue / key rotation ops and queries carrying no / client-only / good / good-for-another-address / truncated / "
+             "forged cookies; non-trivial = at least two queries (bucket: both op kinds)",
+        assumptions=["one query at a time (the limiter's read-lock check followed by write-lock deplete is not atomic; the property quantifies over arrival sequences, not schedules)",
+                     "HMAC-SHA256 is an uninterpreted function; non-transferability is proved under an explicit collision-resistance hypothesis",
+                     "other sources hashing to the same two of 256 buckets can use up a source's allowance (one source per case)"],
+        trusted=["hmac/sha2 crates; DefaultHasher as an arbitrary function"],
+    ),
+    "C06": dict(
+        suites=[("cache", 4000, 100000)],
+        extracted=[],
+        rule="histories of 2..15 ops over store(key, reply with TTLs 0..2^32-1 spread over the three sections, also empty replies) x "
+             "lookup(key or near-miss key differing in case / type / DO / CD) x expire x clock advance (around 1 s, the smallest "
+             "TTL +-1 ns, the 1800 s poll) through the cache's own insert/lookup/expire functions under tokio's paused clock; "
+             "non-trivial = at least one cache hit",
+        assumptions=["two concurrent misses may both go upstream (allowed by the property)", "tokio Instant is monotone",
+                     "only class IN queries reach the cache functions (tested in handle_query before the key is built)"],
+        trusted=["HashMap<CacheKey,_> as a finite map"],
     ),
 }
